@@ -25,4 +25,5 @@ MUTANTS = [
     # correct twin of the seeded change C20 #4 (write adapter that drains the buffer itself, handing over the unwritten tail)
     {'id': 'c20-benign-draining-write-advances', 'props': ['C20', 'C13'], 'expect': 'silent', 'patch': 'patches/c20-draining-write-advances.diff'},
     {'id': 'c20-sink-error-fix-reverted', 'props': ['C20', 'C09'], 'expect': 'fire', 'keys': ['error-examined'], 'patch': 'patches/c20-sink-error-fix-reverted.diff'},
+    {'id': 'c20-benign-filewriter-destructured', 'props': ['C20', 'C12'], 'expect': 'silent', 'patch': 'patches/c20-filewriter-destructured.diff'},
 ]
